@@ -1,0 +1,47 @@
+//go:build verif
+
+// Contracts for the deductive checker in /verif (comment-only).
+
+package input
+
+// ---------------------------------------------------------------- the dispatcher the handlers feed (C12, C13)
+// (what a dispatcher does to the table is specified on table.Dispatch; for the handlers only the
+// sequence of calls matters, which the verifier records in ghost call logs)
+//@ iface (d Dispatcher) Dispatch(buf []byte)
+//@   logged
+//@   modifies allof("calls:input.Dispatcher.Dispatch")
+//@ iface (d Dispatcher) IncNumInvalid()
+//@   logged
+//@   modifies allof("calls:input.Dispatcher.IncNumInvalid")
+
+// ---------------------------------------------------------------- plain.go (C12)
+// linesFrom(base, r, k): base followed by the first k lines of reader r, as Dispatch arguments
+//@ smt (define-fun-rec linesFrom ((base Log) (r Int) (k Int)) Log (ite (<= k 0) base (lsnoc (linesFrom base r (- k 1)) (eP (eB (scanLine r (- k 1)) (scanArr r (- k 1))) eNil))))
+//@
+//@ func (p *Plain) Handle(c io.Reader) error
+//@   property C12,C14
+//@   requires p.dispatcher != nil
+//@   modifies *
+//@   ensures[every_line_once_in_order] calls(p.dispatcher.Dispatch) == linesFrom(old(calls(p.dispatcher.Dispatch)), c.ref, scanCount(c.ref))
+//@   ensures[scanner_error]  result.tag == scanErrTag(c.ref) && result.ref == scanErrRef(c.ref)
+//@   ensures[no_protocol_rejects] calls(p.dispatcher.IncNumInvalid) == old(calls(p.dispatcher.IncNumInvalid))
+//@   loop 1:
+//@     invariant[progress] scanner != nil && scanner.src == c.ref && 0 <= scanner.pos && scanner.pos <= scanCount(c.ref) && p.dispatcher == old(p.dispatcher)
+//@     invariant[dispatched] calls(p.dispatcher.Dispatch) == linesFrom(old(calls(p.dispatcher.Dispatch)), c.ref, scanner.pos)
+//@     invariant[quiet] calls(p.dispatcher.IncNumInvalid) == old(calls(p.dispatcher.IncNumInvalid))
+
+// ---------------------------------------------------------------- pickle.go (C13, C14)
+//@ func checkProtocol(r *bufio.Reader) error
+//@   property C13,C14
+//@   requires r != nil
+//@
+//@ func (p *Pickle) Handle(c io.Reader) error
+//@   property C13,C14
+//@   requires p.dispatcher != nil
+//@   modifies *
+//@   loop 2:
+//@     invariant[chunking; C13,C14] 0 <= lengthRead && lengthRead <= lengthTotal && 0 <= chunkLength && chunkLength <= lengthTotal && len(chunk) == chunkLength && r != nil && (lengthTotal == 0 || chunkLength > 0) && (lengthRead < lengthTotal || lengthTotal == 0)
+//@   loop 1:
+//@     invariant[handler; C13,C14] p.dispatcher != nil && r != nil
+//@   loop 3:
+//@     invariant[handler; C13,C14] p.dispatcher != nil && r != nil
